@@ -219,8 +219,15 @@ class SyntaxCheckInstance(Visitor):
             self._visit_expr(c, ctx)
 
     def _visit_list_comp(self, e: ListComp, ctx: _Ctx):
-        for target, iterable in zip(e.targets, e.iterables):
-            self._visit_expr(iterable, ctx)
+        bound: set[NamedId] = set()
+        for i, (target, iterable) in enumerate(zip(e.targets, e.iterables)):
+            # Only the first iterable is evaluated outside the comprehension:
+            # a later one cannot see an enclosing binding that is shadowed by
+            # a target the comprehension has yet to bind.
+            pending = set().union(*(t.names() for t in e.targets[i:])) - bound if i > 0 else set()
+            visible = _Env({k: v for k, v in ctx.env.env.items() if k not in pending})
+            self._visit_expr(iterable, _Ctx(visible, ctx.within_call))
+            bound |= target.names()
             env = self._visit_binding(target, ctx.env)
             ctx = _Ctx(env, ctx.within_call)
         self._visit_expr(e.elt, _Ctx(env, ctx.within_call))
